@@ -1,0 +1,18 @@
+//go:build verif
+
+/*
+ * Verification hooks (build tag "verif"): re-exports of package-private
+ * primitives for the external correspondence harness in /verif/harness.
+ * Add-only; compiled out of every normal build.
+ */
+
+package compose
+
+import (
+	"github.com/cloudwego/eino/internal"
+)
+
+// VerifConcatItems exposes internal.ConcatItems (the caller ensures len(items) > 1).
+func VerifConcatItems[T any](items []T) (T, error) {
+	return internal.ConcatItems(items)
+}
